@@ -39,3 +39,11 @@ def prepare(rp, ce, params):
         if not r[2] and int(out.get("pc", -1)) != r[1] and r[1] <= pc + 9: bad = True
         return bad, f"real pc={out.get('pc')} stack={st}; reference pc={r[1]} stack={r[3]}"
     return fields, judge
+
+
+def variants(rp, ce, params):
+    """the same stack at the next program positions (a wrong backward jump from pc 0 re-executes the op itself)"""
+    m = dict(ce.get("model") or {})
+    for d in (1, 2, 3):
+        if m.get("pc", 0) + d <= 3:
+            yield f"pc+{d}", dict(ce, model=dict(m, pc=m.get("pc", 0) + d))
